@@ -683,6 +683,12 @@ func init() {
 			if tier == "thorough" {
 				maxS = 4
 			}
+			{
+				j := mkJob(".ZZ_C07_Undo", shellSetup, "s", itoa(maxS+2), "variant", "walk-deep")
+				j.Stubs = paintStubs
+				j.Reach = []string{"steps-done"}
+				jobs = append(jobs, j)
+			}
 			for s := 1; s <= maxS; s++ {
 				for _, v := range []string{"walk", "redo", "branch"} {
 					j := mkJob(".ZZ_C07_Undo", shellSetup, "s", itoa(s), "variant", v)
@@ -807,5 +813,43 @@ func init() {
 		Bounds: map[string]string{"quick": "n <= 2, m <= 3 candidates, k <= 2 TABs", "thorough": "n <= 3"},
 		Rule:   "one state per completed symbolic path",
 		IgnoreKinds: []string{"panic", "hang", "deadlock", "spin"},
+	}
+}
+
+func init() {
+	checks["C11"] = &CheckDef{
+		ID: "C11",
+		Jobs: func(tier string, p *Program) []*Job {
+			var jobs []*Job
+			lens := []int{0, 1, 3, 6}
+			if tier == "thorough" {
+				lens = []int{0, 1, 2, 3, 5, 6, 9, 10, 13}
+			}
+			for _, exit := range []string{"accept", "hold", "abort", "eof", "comment", "panic"} {
+				for _, mode := range []string{"emacs", "vi-insert", "vi-command"} {
+					for _, n := range lens {
+						if exit == "eof" && n > 1 {
+							continue
+						}
+						if mode != "emacs" && n > 3 && tier != "thorough" {
+							continue
+						}
+						j := mkJob(".ZZ_C11_Restore", shellSetup, "exit", exit, "len", itoa(n), "mode", mode)
+						j.Reach = []string{"left-readline|still-editing"}
+						jobs = append(jobs, j)
+					}
+				}
+			}
+			return jobs
+		},
+		Assumptions: []string{
+			"the terminal's initial mode settings are symbolic (the four flag words, VMIN, VTIME) and live in the ioctl stub; width is symbolic in [3,12] so that wrapped and exactly-filled rows occur; prompt '> '; buffer of lower-case letters of the job's length, cursor anywhere",
+			"exit paths: accept-line, accept-and-hold, abort (Ctrl-C), end-of-file (Ctrl-D on an empty line), insert-comment, a user-registered command that panics (recovered by the caller); in emacs, vi-insert and vi-command",
+			"terminal output is interpreted by a VT100 model (cursor movement, CR/LF, erase, deferred autowrap, DECSCUSR) fed through the stdout stub; the display engine runs unstubbed; cursor-position queries are answered ESC[1;1R",
+		},
+		Stubs:  []string{"tty ioctls (symbolic termios, symbolic width)", "stdin = zzverif.Script", "stdout -> zzverif.VT"},
+		Bounds: map[string]string{"quick": "buffer lengths {0,1,3,6}, width 3..12, single-line buffers", "thorough": "buffer lengths up to 13"},
+		Rule:   "one state per completed symbolic path (a path = a class of widths/cursor positions/termios values)",
+		IgnoreKinds: []string{"hang", "deadlock", "spin"},
 	}
 }
